@@ -112,7 +112,7 @@ void harness(void)
 
     const char *m = eav_errstr(&e);
     if (e.errcode == EEAV_IDN_ERROR) {
-        VF_ASSERT(CB_IS_IDN_MESSAGE(m), "C15/C19: an IDN failure carries the IDN library's own message");
+        VF_ASSERT(CB_IS_IDN_MESSAGE_FOR(m, e.result->idn_rc), "C15/C19: an IDN failure carries the IDN library's own message for its code");
         VF_ASSERT(cb_strerror_calls >= 1 && cb_strerror_arg == e.result->idn_rc, "C15/C19: ... for the IDN code of this result");
         VF_COVER(1, "idn-error");
     } else {
